@@ -562,13 +562,15 @@ class FileMixin:
 
     security = ClassSecurityInfo()
 
-    def __init__(self, file_name='', mapping=None, __name__='', **vars):
+    def __init__(self, file_name='', mapping=None, __name__='',
+                 encoding=None, **vars):
         """Create a document template based on a named file.
 
         The optional parameter, 'mapping', may be used to provide a
         mapping object containing defaults for values to be inserted.
         """
         self.raw = file_name
+        self.encoding = encoding or _dt.NEW_DEFAULT_ENCODING
         self.initvars(mapping, vars)
         self.setName(__name__ or file_name)
 
